@@ -405,6 +405,8 @@ def tie_plan(run):
       if private or c.startswith('#') or c == 'id':
         where[idx] = (len(events), 0, True) if cur is None else (len(events), len(cur[2]), False)
         continue
+      if not isinstance(v, (int, float, str, bool, type(None))):
+        return None                      # Record / RecordList / list values are normalised by the Column class on set
       if cur is None:
         cur = [t, c, []]
         touch(t)
